@@ -10,5 +10,5 @@ GNext == UNCHANGED chain
 \* +1, +10%, x2 steps around every boundary value, plus seeded values
 Rems == LET base == RemBoundary \cup RandomSubset(RandomRems, 0..DAY)
         IN {r \in base \cup {b + 1 : b \in base} \cup {b + b \div 10 : b \in base} \cup {2 * b : b \in base} : r <= DAY}
-GEmit == PrintT("CLK " \o ToString(chain[1]) \o " " \o ToString(chain[2]) \o " " \o ToString(chain[3]) \o " " \o ToString(chain[4]) \o " | " \o Join(SetToSeq(Rems)))
+GEmit == PrintT("CLK " \o ToString(chain[1]) \o " " \o ToString(chain[2]) \o " " \o ToString(chain[3]) \o " " \o ToString(chain[4]) \o " | " \o Join(SortedSeq(Rems)))
 =============================================================================
